@@ -153,31 +153,81 @@ def _dense_D(mjm, vals):
   return A
 
 
-def implicit_sign_hypothesis(mjm, st):
-  """State that MuJoCo's IMPLICIT step would produce if the RNE velocity-derivative term entered the system matrix
-  with the opposite sign (A' = M - h*qDeriv_smooth - h*dC/dv). Built from MuJoCo's own float64 matrices:
-  qDeriv(implicit) = qDeriv(implicitfast) - dC/dv."""
+def _actuator_moment_dense(mjm, d):
+  mom = np.zeros((mjm.nu, mjm.nv))
+  if mjm.nu:
+    mujoco.mju_sparse2dense(mom, d.actuator_moment, d.moment_rownnz, d.moment_rowadr, d.moment_colind)
+  return mom
+
+
+HYPOTHESES = {
+  # name -> (signature, explanation); each is a *specific* wrong system matrix built from MuJoCo's own float64 matrices
+  "rne_derivative_sign": (
+    "implicit:rne_derivative_sign",
+    "the RNE velocity-derivative term is subtracted instead of added: A = M - h*qDeriv_smooth - h*dC/dv "
+    "(forward.implicit -> deriv_rne_vel(flg_subtract=True))",
+  ),
+  "unclamped_ctrl": (
+    "implicit:actuator_vel_derivative_unclamped_ctrl",
+    "the actuator force derivative d(gain)/dv*ctrl uses the raw ctrl although the force uses ctrl clamped to ctrlrange "
+    "(derivative._qderiv_actuator_passive_vel reads d.ctrl; MuJoCo's mjd_actuator_vel uses the clamped control)",
+  ),
+}
+
+
+def implicit_hypothesis(mjm, st, which):
+  """State that MuJoCo's implicit / implicitfast step would produce with one specific modification of the system matrix.
+  Returns None when the hypothesis does not apply to this model/state (alternative matrix == correct matrix)."""
   import copy
 
   h = float(mjm.opt.timestep)
-  mi = copy.copy(mjm)
-  mi.opt.integrator = mujoco.mjtIntegrator.mjINT_IMPLICIT
-  di = mujoco.MjData(mi)
-  mw.apply_state_mj(mi, di, st)
-  mujoco.mj_step(mi, di)
-  mf = copy.copy(mjm)
-  mf.opt.integrator = mujoco.mjtIntegrator.mjINT_IMPLICITFAST
-  df = mujoco.MjData(mf)
-  mw.apply_state_mj(mf, df, st)
-  mujoco.mj_step(mf, df)
-  M = mw.dense_M(mjm, di.M)
-  Di = _dense_D(mjm, di.qDeriv)
-  Df = _dense_D(mjm, df.qDeriv)
-  A = M - h * (2.0 * Df - Di)
-  rhs = di.qfrc_smooth + di.qfrc_constraint
-  qacc = np.linalg.solve(A, rhs)
-  qvel0 = np.asarray(st["qvel"], dtype=np.float64)
-  qvel = qvel0 + h * qacc
+  integ = int(mjm.opt.integrator)
+  fast = integ == int(mujoco.mjtIntegrator.mjINT_IMPLICITFAST)
+  d = mujoco.MjData(mjm)
+  mw.apply_state_mj(mjm, d, st)
+  mujoco.mj_step(mjm, d)
+  M = mw.dense_M(mjm, d.M)
+  D = _dense_D(mjm, d.qDeriv)
+  if which == "rne_derivative_sign":
+    if fast:
+      return None
+    mf = copy.copy(mjm)
+    mf.opt.integrator = mujoco.mjtIntegrator.mjINT_IMPLICITFAST
+    df = mujoco.MjData(mf)
+    mw.apply_state_mj(mf, df, st)
+    mujoco.mj_step(mf, df)
+    Df = _dense_D(mjm, df.qDeriv)
+    Dalt = 2.0 * Df - D  # qDeriv(implicit) = qDeriv(implicitfast) - dC/dv
+  elif which == "unclamped_ctrl":
+    if mjm.nu == 0 or (mjm.opt.disableflags & (int(mujoco.mjtDisableBit.mjDSBL_CLAMPCTRL) | int(mujoco.mjtDisableBit.mjDSBL_ACTUATION))):
+      return None
+    mom = _actuator_moment_dense(mjm, d)
+    Dalt = D.copy()
+    ctrl = np.asarray(st["ctrl"], dtype=np.float64)
+    for i in range(mjm.nu):
+      if not mjm.actuator_ctrllimited[i] or mjm.actuator_gaintype[i] != mujoco.mjtGain.mjGAIN_AFFINE:
+        continue
+      if mjm.actuator_dyntype[i] != mujoco.mjtDyn.mjDYN_NONE:
+        continue
+      if mjm.actuator_forcelimited[i]:
+        f = d.actuator_force[i]
+        if f <= mjm.actuator_forcerange[i, 0] or f >= mjm.actuator_forcerange[i, 1]:
+          continue
+      delta = mjm.actuator_gainprm[i, 2] * (ctrl[i] - np.clip(ctrl[i], *mjm.actuator_ctrlrange[i]))
+      Dalt += delta * np.outer(mom[i], mom[i])
+  else:
+    raise KeyError(which)
+  if np.abs(Dalt - D).max(initial=0) <= 1e-12 * max(1.0, np.abs(D).max(initial=0)):
+    return None
+  if fast:
+    L = np.tril(Dalt)
+    Dalt = L + L.T - np.diag(np.diag(Dalt))
+  rhs = d.qfrc_smooth + d.qfrc_constraint
+  try:
+    qacc = np.linalg.solve(M - h * Dalt, rhs)
+  except np.linalg.LinAlgError:
+    return None
+  qvel = np.asarray(st["qvel"], dtype=np.float64) + h * qacc
   qpos = np.asarray(st["qpos"], dtype=np.float64).copy()
   mujoco.mj_normalizeQuat(mjm, qpos)
   mujoco.mj_integratePos(mjm, qpos, qvel, h)
@@ -223,7 +273,17 @@ def judge_world(rec, mjm, got, w, st, ref, noise, prefix="", ctx="", a_acc=A_ACC
   # time and act: never gated
   cmp.judge(rec, "time", got["time"][w : w + 1], ref["time"], A_TIME, noise["time"], sig_prefix=prefix, ctx=ctx)
   if mjm.na:
-    cmp.judge(rec, "act", got["act"][w][: mjm.na], ref["act"], A_PRE, noise["act"], sig_prefix=prefix, ctx=ctx)
+    ga = np.asarray(got["act"][w][: mjm.na], dtype=np.float64)
+    fe = np.zeros(mjm.na, dtype=bool)
+    if int(mjm.opt.integrator) == int(mujoco.mjtIntegrator.mjINT_RK4):
+      # RK4 + FILTEREXACT activations are judged under their own signature (mechanism: intermediate RK stages)
+      for i in range(mjm.nu):
+        if mjm.actuator_dyntype[i] == mujoco.mjtDyn.mjDYN_FILTEREXACT and mjm.actuator_actadr[i] >= 0:
+          fe[mjm.actuator_actadr[i] : mjm.actuator_actadr[i] + mjm.actuator_actnum[i]] = True
+    if (~fe).any():
+      cmp.judge(rec, "act", ga[~fe], ref["act"][~fe], A_PRE, noise["act"], sig_prefix=prefix, ctx=ctx)
+    if fe.any():
+      cmp.judge(rec, "act_filterexact", ga[fe], ref["act"][fe], A_PRE, noise["act"], sig_prefix=prefix, ctx=ctx + " (FILTEREXACT activations under RK4: MuJoCo advances activations with plain Euler increments in the intermediate stages)")
   verdict = "free"
   if constrained or rs[4] > 0 or gs[4] > 0:
     verdict = "gated"
@@ -246,30 +306,28 @@ def judge_world(rec, mjm, got, w, st, ref, noise, prefix="", ctx="", a_acc=A_ACC
   accscale = max(1.0, float(np.abs(ref["qacc"]).max())) if nv else 1.0
   # qacc_warmstart == qacc of the step
   cmp.judge(rec, "qacc_warmstart", got["qacc_warmstart"][w][:nv], ref["qacc_warmstart"], a_acc, noise["qacc_warmstart"], sig_prefix=prefix, ctx=ctx)
-  if int(mjm.opt.integrator) != int(mujoco.mjtIntegrator.mjINT_IMPLICIT):
+  if int(mjm.opt.integrator) not in (int(mujoco.mjtIntegrator.mjINT_IMPLICIT), int(mujoco.mjtIntegrator.mjINT_IMPLICITFAST)):
     _judge_post(rec, mjm, got, w, ref, noise, accscale, prefix, ctx, a_acc)
   else:
     tmp = core.Rec({})
     _judge_post(tmp, mjm, got, w, ref, noise, accscale, prefix, ctx, a_acc)
+    explained = False
     if tmp.violations:
-      # mechanism test: does MJWarp's result equal the solution of the system with the RNE-derivative sign flipped?
-      hyp = implicit_sign_hypothesis(mjm, st)
-      tmp2 = core.Rec({})
-      _judge_post(tmp2, mjm, got, w, hyp, noise, accscale, prefix, ctx, a_acc)
-      if not tmp2.violations and not tmp2.inconclusive:
-        rec.check(tmp.checks)
-        rec.count("implicit_rne_sign_reproduced")
-        v = tmp.violations[0]
-        rec.viol(
-          "implicit:rne_derivative_sign",
-          "IMPLICIT integrator: next qvel/qpos differ from MuJoCo and equal (within float32 bound) the solution of the system "
-          "M - h*qDeriv_smooth - h*dC/dv, i.e. the RNE velocity-derivative term is subtracted instead of added "
-          f"(forward.implicit -> deriv_rne_vel(flg_subtract=True)); first field: {v['msg'][:300]}",
-          **v.get("data", {}),
-        )
-      else:
-        _merge(rec, tmp)
-    else:
+      # mechanism tests: does MJWarp's result equal the solution of one specific wrong system matrix?
+      for which, (sig, text) in HYPOTHESES.items():
+        hyp = implicit_hypothesis(mjm, st, which)
+        if hyp is None:
+          continue
+        tmp2 = core.Rec({})
+        _judge_post(tmp2, mjm, got, w, hyp, noise, accscale, prefix, ctx, a_acc)
+        if not tmp2.violations and not tmp2.inconclusive:
+          rec.check(tmp.checks)
+          rec.count("reproduced:" + which)
+          v = tmp.violations[0]
+          rec.viol(sig, f"implicit-in-velocity integrator: next qvel/qpos differ from MuJoCo and equal (within the float32 bound) the solution of a system in which {text}; first field: {v['msg'][:300]}", **v.get("data", {}))
+          explained = True
+          break
+    if not explained:
       _merge(rec, tmp)
   if verdict == "gated":
     rec.count("worlds_gated")
@@ -286,6 +344,17 @@ def step_compare(rec, mjm, m, states, nsteps=1, seed=0, prefix="", entry=None, a
   states = [dict(s) for s in states]
   for s in states:
     s.setdefault("qacc_warmstart", np.zeros(mjm.nv, np.float32))
+  if "njmax" not in caps:
+    # capacities with >=50% head room over MuJoCo's need at the initial states (an overflow inside an RK4 stage is not
+    # reported by MJWarp, so the oracle must not rely on the overflow bits alone); bounded set of sizes
+    need_j = need_c = 0
+    for st in states:
+      d0 = mujoco.MjData(mjm)
+      mw.apply_state_mj(mjm, d0, st)
+      mujoco.mj_forward(mjm, d0)
+      need_j, need_c = max(need_j, int(d0.nefc)), max(need_c, int(d0.ncon))
+    caps["njmax"] = next((c for c in (64, 128, 256, 512, 1024) if c >= 1.5 * need_j + 8), 2048)
+    caps["nconmax"] = next((c for c in (48, 96, 192, 384) if c >= 1.5 * need_c + 4), 768)
   d = mw.make_data(mjm, m, states, **caps)
   out = {"gated": 0, "ungated": 0, "free": 0, "refs": []}
   for k in range(nsteps):
